@@ -441,4 +441,145 @@ theorem inverse_jacobian_rule (f : ℝ → ℝ → ℝ) (g : ℝ → ℝ) (fF fp
     gp = (invertJacobian [fp] fF).getD 0 0 :=
   inverse_jacobian_lemma f g fF fp gp d p0 hf hg hfF hfg
 
+
+/-! ## Index routing: composite, offset, localisation, fit assembly
+
+  `scatterOp op base idx vals` is NumPy's `base[idx] op= vals` for an integer index list (right-hand
+  side from the original array, assignments in order: the last one wins on a repeated index);
+  `scatterAcc` is the accumulating update (`np.add.at`).  `M.jac`, `jacRow` are built from them exactly
+  as `CompositeModel.jacobian`, `SubtractIndependentOffset.jacobian`, `Model._calculate_jacobian`. -/
+
+/-- the sum of the entries of `vals` that `idx` routes to position `k` -/
+noncomputable def routedSum (idx : List Nat) (vals : List ℝ) (k : Nat) : ℝ :=
+  (((idx.zip vals).filter (fun iv => iv.1 == k)).map Prod.snd).sum
+
+theorem zeros_getElem? (p : List ℝ) (k : Nat) (hk : k < p.length) :
+    (p.map fun _ => (0.0:ℝ))[k]? = some 0 := by
+  rw [List.getElem?_map, List.getElem?_eq_getElem hk]; norm_num
+
+/-- `CompositeModel.jacobian`: entry `k` of the composite Jacobian is what `lhs_params` routes there
+    plus what `rhs_params` routes there — the rows of a shared parameter add, every other row comes
+    from exactly one side, rows of neither side stay 0 (index lists of distinct parameters). -/
+theorem composite_jacobian (p : List ℝ) (li ri : List Nat) (jl jr : List ℝ) (hli : li.Nodup) (hri : ri.Nodup)
+    (k : Nat) (hk : k < p.length) :
+    (scatterOp (· + ·) (scatterOp (· + ·) (p.map fun _ => (0.0:ℝ)) li jl) ri jr)[k]? =
+      some (routedSum li jl k + routedSum ri jr k) := by
+  rw [scatterOp_eq_scatterAcc _ _ _ _ hri, scatterOp_eq_scatterAcc _ _ _ _ hli, scatterAcc_getElem?,
+    scatterAcc_getElem?, zeros_getElem? p k hk]
+  simp only [Option.map_some, routedAcc_add_sum, routedSum]
+  norm_num
+example : [0, 3, 1].Nodup ∧ [2, 3].Nodup := by decide
+
+/-- the model's composite Jacobian IS that double scatter (definitional unfolding of `M.jac`) -/
+theorem composite_jacobian_unfold (l r : M) (x : ℝ) (p sols : List ℝ) :
+    (M.add l r).jac x p sols = (do
+      let li ← subIdx (M.add l r).params l.params
+      let ri ← subIdx (M.add l r).params r.params
+      let pl ← pick li p
+      let pr ← pick ri p
+      let jl ← l.jac x pl (sols.take l.countInv)
+      let jr ← r.jac x pr (sols.drop l.countInv)
+      some (scatterOp (· + ·) (scatterOp (· + ·) (p.map fun _ => (0.0:ℝ)) li jl) ri jr)) := by
+  rw [M.jac]
+
+/-- the derivative of a sum of models is the sum of the derivatives (`CompositeModel.derivative`,
+    and each Jacobian row of `CompositeModel.jacobian` once routed) -/
+theorem composite_is_sum_deriv (fl fr : ℝ → ℝ) (a b t : ℝ) (hl : HasDerivAt fl a t) (hr : HasDerivAt fr b t) :
+    HasDerivAt (fun s => fl s + fr s) (a + b) t := hl.add hr
+
+/-- `SubtractIndependentOffset.jacobian`: the offset's row is `−f'(x − off)`, every other entry is
+    routed from the wrapped model's Jacobian (evaluated at `x − off`). -/
+theorem offset_jacobian (p : List ℝ) (mi : List Nat) (jm : List ℝ) (oi : Nat) (dm : ℝ) (hmi : mi.Nodup)
+    (hoi : oi < p.length) (k : Nat) (hk : k < p.length) :
+    ((scatterOp (· + ·) (p.map fun _ => (0.0:ℝ)) mi jm).set oi (-dm))[k]? =
+      some (if k = oi then -dm else routedSum mi jm k) := by
+  rw [List.getElem?_set]
+  by_cases h : oi = k
+  · subst h
+    simp [scatterOp_length, hoi]
+  · have h' : ¬ k = oi := fun e => h e.symm
+    rw [if_neg h, if_neg h', scatterOp_eq_scatterAcc _ _ _ _ hmi, scatterAcc_getElem?, zeros_getElem? p k hk]
+    simp only [Option.map_some, routedAcc_add_sum, routedSum]
+    norm_num
+example : [1, 2, 3].Nodup ∧ 0 < 4 := by decide
+
+theorem offset_jacobian_unfold (name : String) (m : M) (x : ℝ) (p sols : List ℝ) :
+    (M.off name m).jac x p sols = (do
+      let mi ← subIdx (M.off name m).params m.params
+      let oi ← indexOf (M.off name m).params name
+      let o ← p[oi]?
+      let pm ← pick mi p
+      let jm ← m.jac (x - o) pm sols
+      let dm ← m.der (x - o) pm sols
+      some ((scatterOp (· + ·) (p.map fun _ => (0.0:ℝ)) mi jm).set oi (-dm))) := by
+  rw [M.jac]
+
+/-- the offset row is the true derivative: `∂/∂off f(x − off) = −f'(x − off)`, and the derivative
+    w.r.t. the independent variable is `f'(x − off)` -/
+theorem offset_chain_rule (f : ℝ → ℝ) (f' x off : ℝ) (hf : HasDerivAt f f' (x - off)) :
+    HasDerivAt (fun o => f (x - o)) (-f') off ∧ HasDerivAt (fun y => f (y - off)) f' x := by
+  constructor
+  · have hg : HasDerivAt (fun o => x - o) (-1) off := (hasDerivAt_id' off).const_sub x
+    exact (HasDerivAt.comp (h₂ := f) off hf hg).congr_deriv (by ring)
+  · have hg : HasDerivAt (fun y => y - off) 1 x := (hasDerivAt_id' x).sub_const off
+    exact (HasDerivAt.comp (h₂ := f) x hf hg).congr_deriv (by ring)
+
+/-- `Condition.localize_sensitivities`: `sensitivities[:, p_external]` keeps exactly the columns of
+    the model parameters that are mapped to a global NAME (not pinned to a number), in order. -/
+theorem localize_sensitivities_spec (trans : List (Tr ℝ)) (row : List ℝ) (h : row.length = trans.length) :
+    localizeSensitivities trans row =
+      some ((row.zip trans).filterMap fun vt => if vt.2.name?.isSome then some vt.1 else none) := by
+  unfold localizeSensitivities pExternal
+  rw [pick_flatnonzero _ row (by simp [h])]
+  congr 1
+  rw [List.zip_map_right, List.filterMap_map]
+  rfl
+example : ([1.0, 2.0] : List ℝ).length = [(⟨"s:a", .inl "a"⟩ : Tr ℝ), ⟨"c:1", .inr 1⟩].length := rfl
+
+/-- `Model._calculate_jacobian`, one residual row.  (1) The accumulating update puts `−Σ` of all
+    sensitivities mapped to global `k` at column `k` — by `shared_parameter_chain_rule` that is the
+    derivative of the residual.  (2) The code's buffered update `jacobian[r, p_indices] -= s` is the
+    same whenever the data set maps its parameters to DISTINCT globals.  (3) Block structure: columns
+    of globals the data set does not use stay 0. -/
+theorem fit_jacobian_assembly (g : List ℝ) (pidx : List Nat) (sens : List ℝ) (k : Nat) (hk : k < g.length) :
+    (scatterAcc (· - ·) (g.map fun _ => (0.0:ℝ)) pidx sens)[k]? = some (-(routedSum pidx sens k)) ∧
+    (pidx.Nodup → scatterOp (· - ·) (g.map fun _ => (0.0:ℝ)) pidx sens
+        = scatterAcc (· - ·) (g.map fun _ => (0.0:ℝ)) pidx sens) ∧
+    (k ∉ pidx → (scatterOp (· - ·) (g.map fun _ => (0.0:ℝ)) pidx sens)[k]? = some 0) := by
+  refine ⟨?_, fun h => scatterOp_eq_scatterAcc _ _ _ _ h, fun hk' => ?_⟩
+  · rw [scatterAcc_getElem?, zeros_getElem? g k hk]
+    simp only [Option.map_some, routedAcc_sub_sum, routedSum]
+    norm_num
+  · rw [scatterOp_getElem? _ _ _ _ k 0 (zeros_getElem? g k hk)]
+    rw [routedLast_no_key]
+    intro iv hm heq
+    exact hk' (heq ▸ (List.of_mem_zip hm).1)
+example : (1 : Nat) < ([40.0, 16.0, 4.11] : List ℝ).length := by decide
+
+theorem fit_row_unfold (fixed : Bool) (m : M) (trans : List (Tr ℝ)) (names : List String) (g : List ℝ) (x : ℝ) :
+    jacRow fixed m trans names g x = (do
+      let pl ← getLocalParams trans names g
+      let j ← m.jac x pl []
+      let sens ← localizeSensitivities trans j
+      some ((if fixed then scatterAcc else scatterOp) (· - ·) (g.map fun _ => (0.0:ℝ))
+        ((pGlobalIndices trans names).filterMap id) sens)) := rfl
+
+/-- two local parameters fed from ONE global: the derivative w.r.t. the global is the SUM of the
+    two partial derivatives (so the accumulating update is the right one) -/
+theorem shared_parameter_chain_rule (f : ℝ → ℝ → ℝ) (f1 f2 g : ℝ)
+    (hf : HasFDerivAt (fun q : ℝ × ℝ => f q.1 q.2)
+      (f1 • ContinuousLinearMap.fst ℝ ℝ ℝ + f2 • ContinuousLinearMap.snd ℝ ℝ ℝ) (g, g)) :
+    HasDerivAt (fun t => f t t) (f1 + f2) g := by
+  have h1 : HasDerivAt (fun t : ℝ => (t, t)) ((1:ℝ), (1:ℝ)) g := (hasDerivAt_id g).prodMk (hasDerivAt_id g)
+  have hf2 : HasFDerivAt (fun q : ℝ × ℝ => f q.1 q.2)
+      (f1 • ContinuousLinearMap.fst ℝ ℝ ℝ + f2 • ContinuousLinearMap.snd ℝ ℝ ℝ) ((fun t : ℝ => (t, t)) g) := hf
+  have h2 := HasFDerivAt.comp_hasDerivAt (f := fun t : ℝ => (t, t)) g hf2 h1
+  exact h2.congr_deriv (by simp)
+
+/-- Finding F9, kernel-checked: with a repeated target index the code's update keeps only the last
+    sensitivity (`−7`), the derivative of the residual needs the sum (`−12`). -/
+theorem F9_witness :
+    scatterOp (· - ·) [(0:Int), 0, 0] [1, 1] [5, 7] = [0, -7, 0] ∧
+    scatterAcc (· - ·) [(0:Int), 0, 0] [1, 1] [5, 7] = [0, -12, 0] := by decide
+
 end Verif.C13
